@@ -64,6 +64,11 @@ CLAIMED.update({
    text="Proof: AnySignedBy/AllSignedBy return a strictly sorted, duplicate-free list containing exactly the fingerprints recorded on the signatures attached to some / to every selected task (tasks without signatures contribute nothing), without touching the image; after a successful Verify a fingerprint recorded on a clear-signed signature is that of the entity whose supplied key validated it (partial); for DSSE signatures the statement is refuted by an evaluated witness (known finding F10)." + CORR_I + " Cases: generated multi-group images with 0-3 PGP signers per group, DSSE and legacy signatures mixed in, forged fingerprints, under default / group / object / legacy selections, compared with a specification-side computation of union and intersection.",
    note=NOTE_I, ref="5 (C17)"),
 })
+ 
+CLAIMED["C18"] = dict(
+   text="Proof (partial, by the nature of the property): in the model every read-only facility (descriptor queries, header accessors, content reads, integrity streams, signer listings, full verification) is a function of handle and storage that returns the state unchanged, hence for every schedule interleaving the calls of any number of clients each call returns what it returns alone and a client's view is independent of the other clients (induction over schedules). That the source's read paths are like that is re-established on every run: the translator follows calls from the read-only entry points of pkg/sif and pkg/integrity and extracts every assignment through a pointer to FileImage/Buffer/Verifier/rawDescriptor/header or to a package variable and every method call on a package variable; the generated lists are proved empty. The model's answers are tied to the implementation by the query and verification correspondence families. Data-race freedom of the compiled code is a runtime property the model cannot exhibit: it is searched with the race detector (12 goroutines x GOMAXPROCS 1/2/4/16 x mixed readers on freshly loaded shared handles, memory and file backends, every result compared with the sequential one), not proved.",
+   note="Trusted: Coq kernel, the translator's syntactic call-graph (calls by name inside a package, an over-approximation; calls through interfaces into other packages are not followed), the Go race detector and scheduler for the search. Level is proof for the sequential-equivalence statement of the model and for the emptiness of the extracted write sets; the runtime claim itself is tested.",
+   ref="5 (C18)")
 
 REASON_PENDING = "check not yet built in this revision (model exists; theorem file and families pending) - see DESIGN.md section 10"
 
